@@ -571,7 +571,7 @@ func TestC12(t *testing.T) {
 		"excluded by construction (counted): truncating a ROTATED data file exactly at a record boundary, which no reader of this format can tell from a legitimately shorter log",
 		"evaluations counts injected faults")
 	defer finishProperty(st)
-	rapid.Check(t, func(t *rapid.T) { c12Run(t, st) })
+	checkCases(t, st, func(t *rapid.T) { c12Run(t, st) })
 }
 
 func c12Run(t *rapid.T, st *kvh.Stats) {
